@@ -28,6 +28,7 @@ import (
 	"reflect"
 	"sort"
 	"strings"
+	"sync"
 
 	"github.com/ProtonMail/gluon"
 	"github.com/ProtonMail/gluon/db"
@@ -271,6 +272,8 @@ func (C08) Generate(r *core.Rand, tier string, idx int) *core.Scenario {
 			add(core.Action{K: "reopen"})
 		case k == 9:
 			add(core.Action{K: "crash"})
+		case k == 10:
+			add(core.Action{K: "preads", A: []int{r.Intn(100), r.Intn(100)}})
 		default:
 			name := ""
 			if r.Intn(10) < wWrite {
@@ -538,6 +541,12 @@ func (x *c8Exec) run() {
 				x.switchTo(img, "crash_between")
 			}
 			i++
+		case "preads":
+			// several sessions read at the same time (Client.Read admits concurrent readers):
+			// what the statement says about every later operation must not depend on which
+			// pooled connection it happens to get afterwards
+			x.parallelReads(2+a.Arg(0)%5, 5+a.Arg(1)%20)
+			i++
 		default:
 			op, ok := c8Ops[a.K]
 			if !ok {
@@ -545,6 +554,40 @@ func (x *c8Exec) run() {
 				return
 			}
 			i = x.group(i, !op.write, true)
+		}
+	}
+}
+
+func (x *c8Exec) parallelReads(k, n int) {
+	x.tr.Event("preads", k, n)
+	ids := x.committed.mboxIDs()
+	var wg sync.WaitGroup
+	errs := make([]error, k)
+	for g := 0; g < k; g++ {
+		wg.Add(1)
+		go func(g int) {
+			defer wg.Done()
+			for i := 0; i < n && errs[g] == nil; i++ {
+				errs[g] = x.client.Read(x.ctx, func(ctx context.Context, rd db.ReadOnly) error {
+					if _, err := rd.GetAllMailboxesWithAttr(ctx); err != nil {
+						return err
+					}
+					for _, id := range ids {
+						if _, err := rd.GetMailboxMessageForNewSnapshot(ctx, imap.InternalMailboxID(id)); err != nil {
+							return err
+						}
+					}
+					return nil
+				})
+			}
+		}(g)
+	}
+	wg.Wait()
+	x.st.Probes["parallel_read_storms"]++
+	x.st.Faults["concurrent_readers"] += k
+	for _, err := range errs {
+		if err != nil && !x.failed() {
+			x.fail("errclass", "parallel Read", "a Read running next to %d other readers returned %v", k-1, err)
 		}
 	}
 }
